@@ -11,7 +11,7 @@ CLAIMED = {
  "C05": dict(level="exploration", ref="DESIGN.md §3 C05",
    technique="deterministic simulation: request monitor at the simulated block store against an independently computed allowed block set, plus re-execution on a starved store (every other block unavailable)",
    text="Seeded search over file DAG shapes x ranges (biased to chunk/interior boundaries, empty and whole-file ranges) via Seek+ReadFull on a fresh reader, via multi-step histories on one reader, and via a MatcherSubset traversal; sharded directories (fanout 8..1024, mined hash-prefix collisions; writers: this builder, boxo incl. insert/remove histories, a mixed-fanout writer) x member/non-member lookups through all three entry points; mixed trees x paths (incl. paths naming no entry) through UnixFSPathSelector; link systems with and without NodeReifier. Every storage request must lie in the allowed set; on the starved store the operation must still return the model's answer.",
-   note="Only the upper bound (no over-fetch) is asserted. Trusts boxo's dag-pb/unixfs parsing and spaolacci/murmur3 for the model's hash paths. DAGs declare child sizes."),
+   note="Only the upper bound (no over-fetch) is asserted. Trusts boxo's dag-pb/unixfs parsing and spaolacci/murmur3 for the model's hash paths. Where a node does not record a dag-pb child's size the blocks a lazy reader must open to measure it are allowed in addition (raw children never); obtaining the lazy view may request the root only. Also run: files beyond 4 GiB (sparse model), link systems with NodeReifier, one worker per batch in a process with the murmur3 multihash code re-registered."),
  "C06": dict(level="fault_enumeration", ref="DESIGN.md §3 C06",
    technique="deterministic simulation with storage fault injection: requested-set equality against the model on a complete store, then exhaustive single-block fault sweep x 3 fault kinds, k-th-load-fails for every k, and seeded block subsets; every faulted execution must return an error",
    text="Per seeded entity (file DAG, sharded or plain directory, optionally reached through UnixFSPathSelectorBuilder; link system with or without NodeReifier) the three access paths are run fault-free (requested set must equal the entity's block set exactly) and under every single-block fault of the entity x 3 kinds, the same with well-known error values, k-th-load and store-goes-away plans, block subsets, and an access-twice history on one root object.",
@@ -19,7 +19,7 @@ CLAIMED = {
  "C12": dict(level="fault_enumeration", ref="DESIGN.md §3 C12",
    technique="deterministic simulation with storage fault injection: exhaustive single-block unavailability sweep x 4 fault kinds (not-found, I/O error at open, I/O error mid-stream, corrupted bytes failing the hash check), k-th-load-fails-once for every k, seeded 2-3 block subsets; oracle = independent model of what stays reachable",
    text="Per seeded DAG every non-root block is made unavailable in turn with every fault kind (and with well-known error values incl. bare io.EOF, io.ErrUnexpectedEOF, ENOENT PathError, context errors, traversal.SkipMe); plus k-th-load-once, store-goes-away-at-load-k and subset plans. Sequential reads (from offset 0 or after a Seek) must return exactly the bytes before the missing span and then the load error (never EOF, never wrong bytes); lookups crossing a missing shard the load error (never not-found), also when repeated on one node; preload the load error; iteration must terminate, yield each reachable entry once and report one error per missing shard met; after the store recovers the same node must answer correctly.",
-   note="Exhaustive per generated DAG, sampled over DAGs. Zero-length blocks may legitimately be skipped. Only error-returning entry points are judged."),
+   note="Exhaustive per generated DAG, sampled over DAGs. An empty block lying exactly at the position a reader was seeked to is optional. Entry points without an error result are judged for what they can express (Length(): the true count or 0, never a partial count). Beyond storage faults: eight well-known error values, the store going away at load k, real cancellation of the node's context (at a load; between two Reads), histories on one reader / node after the error and after recovery."),
  "C20": dict(level="exploration", ref="DESIGN.md §3 C20",
    technique="deterministic simulation: ordered request log of the simulated block store compared with an independent depth-first link-order walk, each operation repeated on cold nodes in-process",
    text="Seeded search over file DAGs, sharded directories (incl. mixed-fanout) and trees x operations (full read via AsBytes / Read loops, preload reify, MapIterator, Length, entity-selector walk, path traversal with match/preload/entity target); the first-request order must equal the model's pre-order walk on each of 3 repetitions, and all requests must come from one goroutine.",
